@@ -155,6 +155,7 @@ def step (st : DState) (line : String) : DState × String :=
   | "docbuf" :: rest => (st, Sonic.Model.DocBuf.runLine rest)
   | "lazy" :: _ => (st, Sonic.Model.Lazy.runLine st.W toks)
   | "ser" :: _ => (st, Sonic.Model.Serialize.runLine st.W toks)
+  | "serv" :: _ :: rest => (st, Sonic.Model.Serialize.runLine st.W ("ser" :: "256" :: rest))  -- string values as views next to an unmapped page: same bytes
   | "pod" :: _ => (st, Sonic.Model.OnDemand.runPodLine st.W toks)
   | "parse" :: _ | "parse-seq" :: _ => (st, Sonic.Model.Parse.runLine st.W toks)
   | ["slice-spec", hx, a, b] =>
